@@ -423,7 +423,10 @@ func (x *Exec) step(st *State, fr *Frame, ins ssa.Instruction) {
 		for _, f := range facts {
 			st.assume(f)
 		}
-		st.vals[v] = Val{T: t, typ: v.Type(), fn: xv.fn}
+		bx := xv
+		bx.T = x.materialize(st, xv)
+		bx.typ = v.X.Type()
+		st.vals[v] = Val{T: t, typ: v.Type(), fn: xv.fn, boxed: &bx}
 	case *ssa.MakeClosure:
 		fn := v.Fn.(*ssa.Function)
 		fv := &FnVal{fn: fn}
